@@ -29,8 +29,10 @@ import (
 	"github.com/ipfs/go-cid"
 	carv2 "github.com/ipld/go-car/v2"
 	"github.com/ipld/go-car/v2/blockstore"
+	"github.com/ipld/go-car/v2/index"
 	"github.com/ipld/go-car/v2/storage"
 	"github.com/multiformats/go-multicodec"
+	"github.com/multiformats/go-multihash"
 )
 
 type sOpts struct {
@@ -195,6 +197,7 @@ type realStore interface {
 	GetSize(c cid.Cid) (int, error) // -2: not offered by this kind
 	AllKeys() ([]cid.Cid, error, bool)
 	Roots() ([]cid.Cid, error)
+	IndexRecs() ([]string, bool) // "multihash-hex@offset" of the in-memory index (I-layer invariant IndexMatchesFile)
 }
 
 var bg = context.Background()
@@ -246,6 +249,18 @@ func (s *rwStore) AllKeys() ([]cid.Cid, error, bool) {
 	return out, nil, true
 }
 func (s *rwStore) Roots() ([]cid.Cid, error) { return s.bs.Roots() }
+func (s *rwStore) IndexRecs() ([]string, bool) { return iterIndex(s.bs.Index()) }
+
+func iterIndex(ix index.Index) ([]string, bool) {
+	it, ok := ix.(index.IterableIndex)
+	if !ok {
+		return nil, false
+	}
+	var out []string
+	it.ForEach(func(m multihash.Multihash, off uint64) error { out = append(out, fmt.Sprintf("%x@%d", []byte(m), off)); return nil })
+	sort.Strings(out)
+	return out, true
+}
 
 type scStore struct {
 	sc *storage.StorageCar
@@ -280,6 +295,7 @@ func (s *scStore) Get(c cid.Cid) ([]byte, error) {
 func (s *scStore) GetSize(c cid.Cid) (int, error)     { return -2, nil }
 func (s *scStore) AllKeys() ([]cid.Cid, error, bool) { return nil, nil, false }
 func (s *scStore) Roots() ([]cid.Cid, error)         { return s.sc.Roots(), nil }
+func (s *scStore) IndexRecs() ([]string, bool)       { return iterIndex(s.sc.Index()) }
 
 func isNotFound(err error) bool {
 	var nf interface{ NotFound() bool }
@@ -320,6 +336,7 @@ func openReal(kind, path string, roots []string, o sOpts, resume bool) (realStor
 // ---- projection ------------------------------------------------------------------------
 
 type sProj struct {
+	Recs   []string // "multihash-hex@payload offset" of every section on disk
 	Secs   []string
 	Fin    bool
 	Closed bool
@@ -381,7 +398,9 @@ func projectFile(path string, o sOpts) sProj {
 			return p
 		}
 		p.Secs = append(p.Secs, blk.ID)
+		p.Recs = append(p.Recs, fmt.Sprintf("%x@%d", []byte(s.Cid.Hash()), s.Off))
 	}
+	sort.Strings(p.Recs)
 	return p
 }
 
@@ -777,6 +796,11 @@ func runStorePath(g *sGraph, init *sNode, kind string, ops []sOp, dir string, re
 			}
 			if len(next) == 0 {
 				return mk(kind+"/"+op.Op+"/obs", fmt.Sprintf("step %d %s: %s", i, op, lastMsg), i)
+			}
+		}
+		if !dropped && !p.Closed {
+			if recs, ok := st.IndexRecs(); ok && strings.Join(recs, ",") != strings.Join(p.Recs, ",") {
+				return mk(kind+"/"+op.Op+"/index-vs-file", fmt.Sprintf("step %d %s: the in-memory index holds %v, the sections on disk are %v", i, op, recs, p.Recs), i)
 			}
 		}
 		if checkC05 {
